@@ -53,6 +53,53 @@ ReadLocale(path, base, names) ==
     THEN CHOOSE x \in DOMAIN names : names[x] = path[Len(base) + 1]
     ELSE None
 
+\* ---- the N + 1 route families of an I18nRoute ----------------------------------------------------------
+\* Binding of a route's parameters by a path (leptos_router's rule: an optional parameter is taken when the rest still matches).
+\* Result: [ok |-> BOOLEAN, b |-> set of <<parameter name, sequence of segments>>]
+ParamName == [param |-> "p", opt |-> "o", splat |-> "s"]
+BindFail == [ok |-> FALSE, b |-> {}]
+RECURSIVE Bind(_, _, _)
+Bind(rs, ps, x) ==
+    IF rs = <<>> THEN (IF ps = <<>> THEN [ok |-> TRUE, b |-> {}] ELSE BindFail)
+    ELSE LET d == Head(rs) IN
+         IF d.t = "splat" THEN [ok |-> TRUE, b |-> {<<"s", ps>>}]
+         ELSE IF d.t = "opt"
+              THEN LET present == IF ps = <<>> THEN BindFail
+                                  ELSE LET r == Bind(Tail(rs), Tail(ps), x) IN
+                                       IF r.ok THEN [ok |-> TRUE, b |-> r.b \cup {<<"o", <<ps[1]>>>>}] ELSE BindFail IN
+                   IF present.ok THEN present ELSE Bind(Tail(rs), ps, x)
+         ELSE IF ps = <<>> THEN BindFail
+         ELSE IF d.t = "param"
+              THEN LET r == Bind(Tail(rs), Tail(ps), x) IN IF r.ok THEN [ok |-> TRUE, b |-> r.b \cup {<<"p", <<ps[1]>>>>}] ELSE BindFail
+         ELSE IF ps[1] # SegText(d, x) THEN BindFail ELSE Bind(Tail(rs), Tail(ps), x)
+
+\* first route of the table (spelled in locale x) that the path matches, 0 if none
+RouteOf(table, ps, x) ==
+    LET I == { i \in DOMAIN table : Bind(table[i], ps, x).ok } IN
+    IF I = {} THEN 0 ELSE CHOOSE i \in I : \A j \in I : i <= j
+
+\* what the route families make of a URL (path below the router's base):
+\*   one family per locale in declaration order, entered only when the first segment EQUALS the locale's name and one of its
+\*   routes matches the rest; else the prefix-less family, spelled in the default locale; else nothing
+NoRoute == [matched |-> FALSE, loc |-> None, prefix |-> "", route |-> 0, b |-> {}]
+MatchUrl(path, names, order, default, table) ==
+    LET P == { i \in DOMAIN order : path # <<>> /\ path[1] = names[order[i]] /\ RouteOf(table, Tail(path), order[i]) # 0 } IN
+    IF P # {}
+    THEN LET x == order[CHOOSE i \in P : \A j \in P : i <= j]
+             r == RouteOf(table, Tail(path), x) IN
+         [matched |-> TRUE, loc |-> x, prefix |-> names[x], route |-> r, b |-> Bind(table[r], Tail(path), x).b]
+    ELSE LET r == RouteOf(table, path, default) IN
+         IF r = 0 THEN NoRoute
+         ELSE [matched |-> TRUE, loc |-> None, prefix |-> "", route |-> r, b |-> Bind(table[r], path, default).b]
+
+\* the route list an I18nRoute generates: per locale (declaration order) its name then the route in its spelling; then the
+\* prefix-less family in the default locale's spelling
+GenSeg(d, x) == IF d.t \in {"static", "loc"} THEN [t |-> "static", s |-> SegText(d, x)] ELSE [t |-> d.t, s |-> ParamName[d.t]]
+GenRoute(r, x) == [i \in DOMAIN r |-> GenSeg(r[i], x)]
+GenRoutes(names, order, default, table) ==
+    Cat([i \in DOMAIN order |-> [j \in DOMAIN table |-> << [t |-> "static", s |-> names[order[i]]] >> \o GenRoute(table[j], order[i])]])
+    \o [j \in DOMAIN table |-> GenRoute(table[j], default)]
+
 \* how "/a/b" splits on "/":  <<"", "a", "b">>;  the root "/" is <<"", "">>
 RawSplit(segs) == IF segs = <<>> THEN <<"", "">> ELSE <<"">> \o segs
 =============================================================================
